@@ -172,6 +172,11 @@ var c08Idents = []string{"a", "b", "c", "x1", "foo", "Z"}
 var c08Ints = []string{"0", "1", "2", "42", "100"}
 
 func c08Atom(r *Rng) c08Expr {
+	if r.Chance(1, 8) {
+		// a negative number built as ONE literal (what the exporter produces for `< -1`); wire `M<digits>`
+		s := Pick(r, []string{"1", "2", "42"})
+		return c08Expr{"M" + s, ast.NewLit(token.INT, "-"+s)}
+	}
 	if r.Chance(2, 5) {
 		s := Pick(r, c08Ints)
 		return c08Expr{"N" + s, ast.NewLit(token.INT, s)}
@@ -286,7 +291,7 @@ func c08ExprOps(c *Cfg, e c08Expr) {
 		}
 		c.OpTag("O", tag, fmt.Sprintf("norm %s %s", mode, e.wire), norm)
 		// I: the exact characters (blank policy); multi-line layouts are outside the model
-		if !strings.Contains(out, "\n") {
+		if !strings.Contains(out, "\n") && !strings.Contains(e.wire, "M") { // (blanks after a binary - before a negative literal are not modelled)
 			if v2 {
 				// `|` / `&` chains go through chainGroupArms (arms rendered afresh, soft line breaks):
 				// not modelled at the character level; their tokens are compared by the O ops above
@@ -306,6 +311,8 @@ func c08ExprOps(c *Cfg, e c08Expr) {
 			cls := "programmatic-expr-spacing-not-idempotent-" + mode
 			if tag != "" {
 				cls = tag
+			} else if strings.Contains(e.wire, "M") && !v2 {
+				cls = "v1-programmatic-negative-literal-spacing-not-idempotent"
 			}
 			c.Direct(ok, cls, fmt.Sprintf("format.Node(parse(out)) != out: %q then %q (%v)", out, out2, err2), e.wire)
 		}
@@ -336,7 +343,12 @@ func c08ExprCases(c *Cfg, r *Rng) {
 	// the witness of C08_v1_policy_safe_false and its relatives, always
 	for _, p := range [][2]token.Token{{token.LSS, token.SUB}, {token.LSS, token.MAT}, {token.NOT, token.MAT},
 		{token.GTR, token.MAT}, {token.LSS, token.LEQ}, {token.NOT, token.NEQ}, {token.LSS, token.LSS}} {
-		c08ExprOps(c, c08Un(p[0], c08Un(p[1], c08Atom(NewRng(1)))))
+		c08ExprOps(c, c08Un(p[0], c08Un(p[1], c08Expr{"Ia", ast.NewIdent("a")})))
+	}
+	// ... and with the negative number as a single literal (guards extended by 9a3bd4a)
+	for _, op := range c08UnOps {
+		c08ExprOps(c, c08Un(op, c08Expr{"M1", ast.NewLit(token.INT, "-1")}))
+		c08ExprOps(c, c08Bin(token.LSS, c08Expr{"Ia", ast.NewIdent("a")}, c08Un(op, c08Expr{"M42", ast.NewLit(token.INT, "-42")})))
 	}
 	if !c.Focus {
 		// exhaustive: every tree with at most two operator nodes over {a, 1}, with and without parentheses
@@ -418,11 +430,14 @@ func c08GenExt(r *Rng, depth int) ast.Expr {
 	if depth <= 0 || r.Chance(1, 6) {
 		switch r.Intn(6) {
 		case 0:
+			if r.Chance(1, 3) {
+				return ast.NewLit(token.INT, "-"+Pick(r, c08Ints))
+			}
 			return ast.NewLit(token.INT, Pick(r, c08Ints))
 		case 1:
 			return ast.NewString(Pick(r, []string{"s", "a b", ""}))
 		case 2:
-			return ast.NewLit(token.FLOAT, Pick(r, []string{"1.5", "0.25"}))
+			return ast.NewLit(token.FLOAT, Pick(r, []string{"1.5", "0.25", "-1.5"}))
 		}
 		return ast.NewIdent(Pick(r, c08Idents))
 	}
@@ -491,6 +506,10 @@ func c08ExtClass(e ast.Expr, v2 bool) string {
 		}
 		if _, ok := recv.(*ast.UnaryExpr); ok && v2 && cls == "" {
 			cls = "v2-programmatic-unary-operand-in-primary-position-not-parenthesised"
+		}
+		if l, ok := recv.(*ast.BasicLit); ok && strings.HasPrefix(l.Value, "-") && cls == "" {
+			// `-1` built as ONE literal used as the operand of a selector / index / slice / call
+			cls = "programmatic-negative-literal-in-primary-position-not-parenthesised"
 		}
 		return true
 	}, nil)
